@@ -55,7 +55,27 @@ CLAIM = {
             'values, negative witness pack_indexes_dup_first); termination is outside the model (a stream that '
             'runs out = a program that skips for ever, made explicit as exhausted/starved). Not modelled: progress '
             'bars, ipyparallel path, periodic (500 reps / 300 s) partial saving and crash/resume (C07), '
-            'CHOICETYPE results (np.int defect, C06/C17), result merging internals (C06; the merge is a parameter).',
+            'CHOICETYPE results (np.int defect, C06/C17), result merging internals (C06; the merge is a parameter). '
+            'Robustness classes: R1 (element types: list/tuple/float lists, numpy scalars, int8..int64, uint8/16, '
+            'float16/32/64, complex64/128 arrays as value containers; fixed values, rep_max, variation index and the '
+            'values returned by _run_simulation in other scalar types) and R2 (reversed / strided / read-only / '
+            'Fortran-cut / (N,1) / 2-D / transposed / broadcast / 3-D containers, 0-d arrays refused) are covered '
+            'by THEOREM only in the sense that the model is a function of the logical values (it never sees a dtype '
+            'or a layout: every materialisation is sent to the model as the same base-integer line) and by '
+            'CORRESPONDENCE + ORACLE for the code. R3: model functions are pure (outputs are fresh values) by '
+            'construction; inputs / returned arrays / held results objects are re-compared after later calls by the '
+            'oracle and the held answers are part of the correspondence. R4: theorems rejected_param_call_leaves_state '
+            'and simulate_single_needs_file (state unchanged) + before/after comparison of every observable for every '
+            'rejected call in correspondence and oracle. R5 (0 / 0.0 / None values, single-element lists, rep_max 1, '
+            'first / last index and element, rule thresholds 0) and R6 (grids scaled 1e-12..1e12, outcome values '
+            'scaled by 2^+-40, 2^100, 1e+-9, 1e+-12; comparisons relative to the scale): the theorems are scale- and '
+            'value-agnostic (arbitrary R, merge, keep); the code is covered by correspondence + oracle. R7: theorems '
+            'lookup_no_stale_state, repeated_simulate_fresh (for every configuration, hence for a changed rep_max), '
+            'completed_variation_not_rerun; histories changing rep_max / results file / delete_partial_results_bool / '
+            'a rep_max entry in the parameters between simulate() and simulate(index) calls are compared with the '
+            'model, with a freshly built runner and with first principles. Objects shared between two users: only '
+            'results.params / runner.params (fixed, c561af3); the API offers no way to hand one parameters object '
+            'to two runners.',
 }
 
 NAME_POOL = ['a', 'b', 'c', 'aa', 'ab', 'B', 'Z', 'a1', '_x', 'snr', 'SNR', 'M', 'z9']
@@ -109,6 +129,272 @@ def grid_line(case):
     return 'grid names=%s vals=%s fixed=%s' % (','.join(names), vals, look)
 
 
+# ------------------------------------------------------------------ robustness materialisation (R1/R2/R5/R6)
+# A case always carries its LOGICAL content as small base integers (that is what the model sees);
+# `case['mat']` says how the same logical values are handed to the library: container type / dtype /
+# memory layout / shape of every unpacked parameter, type of the fixed values in look-ups, type and scale
+# of the values returned by `_run_simulation`, type of rep_max and of the variation index.
+INT_DTYPES = ['int8', 'uint8', 'int16', 'uint16', 'int32', 'int64']
+FLOAT_DTYPES = ['float16', 'float32', 'float64']
+R1_KINDS = ['tuple', 'floatlist'] + INT_DTYPES + FLOAT_DTYPES + ['complex64', 'complex128'] \
+    + ['npscalars:int8', 'npscalars:uint16', 'npscalars:float32', 'npscalars:int64']
+R2_KINDS = ['rev', 'strided', 'col', 'fcol', 'rows2', 'rows2T', 'bcast2', 'rows3d', 'readonly']
+R6_SCALES = ['1e-12', '1e-9', '1e-3', '1e3', '1e9', '1e12']
+NOT_LOOKABLE = ('rows2', 'rows2T', 'bcast2', 'rows3d')     # look-up by value needs scalar elements
+UNSIGNED = ('uint8', 'uint16', 'npscalars:uint16')
+
+
+def _np():
+    import numpy as np
+    return np
+
+
+def elem_key(e):
+    """exact logical value of one element of a parameter (None, number, complex, row of numbers)"""
+    np = _np()
+    if e is None:
+        return 'None'
+    if isinstance(e, np.ndarray):
+        return tuple(elem_key(x) for x in e.tolist()) if e.ndim else elem_key(e.item())
+    if isinstance(e, (list, tuple)):
+        return tuple(elem_key(x) for x in e)
+    if isinstance(e, (complex, np.complexfloating)):
+        c = complex(e)
+        return Fraction(c.real) if c.imag == 0 else (Fraction(c.real), Fraction(c.imag))
+    if isinstance(e, (bool, np.bool_)):
+        return ('bool', bool(e))
+    if isinstance(e, (int, np.integer)):
+        return Fraction(int(e))
+    return Fraction(float(e))
+
+
+def mat_container(kind, base):
+    """the container handed to params.add for the base values `base`; iteration yields the elements in
+    base order. Returns (container, elemfn) where elemfn materialises one more base value the same way."""
+    np = _np()
+    base = list(base)
+    if kind == 'list':
+        return list(base), int
+    if kind == 'tuple':
+        return tuple(base), int
+    if kind == 'floatlist':
+        return [float(b) for b in base], float
+    if kind == 'none':                       # R5: None among the values (stands for the smallest one)
+        lo = min(base) if base else None
+        return [None if b == lo else b for b in base], (lambda b: None if b == lo else b)
+    if kind.startswith('npscalars:'):
+        t = np.dtype(kind.split(':')[1]).type
+        return [t(b) for b in base], t
+    if kind.startswith('scale:'):            # R6: the whole grid multiplied by a decimal factor
+        parts = kind.split(':')
+        f = float(parts[1])
+        if len(parts) > 2:
+            return np.array([b * f for b in base], dtype=np.float64), (lambda b: np.float64(b * f))
+        return [b * f for b in base], (lambda b: b * f)
+    if kind in INT_DTYPES + FLOAT_DTYPES + ['complex64', 'complex128']:
+        dt = np.dtype(kind)
+        return np.array(base, dtype=dt), dt.type
+    if kind == 'rev':                        # reversed view (negative stride)
+        return np.array(base[::-1], dtype=np.int64)[::-1], np.int64
+    if kind == 'strided':                    # every second element of a larger buffer
+        big = np.full(2 * len(base) + 1, -77, dtype=np.int64)
+        big[0:2 * len(base):2] = base
+        return big[0:2 * len(base):2], np.int64
+    if kind == 'readonly':
+        a = np.array(base, dtype=np.int64)
+        a.setflags(write=False)
+        return a, np.int64
+    if kind == 'col':                        # (N, 1)
+        return np.array(base, dtype=np.int64).reshape(-1, 1), (lambda b: np.array([b]))
+    if kind == 'fcol':                       # (N, 1) cut out of a Fortran-ordered (N, 2) array
+        a = np.asfortranarray(np.array([[b, -5] for b in base], dtype=np.int64).reshape(-1, 2))
+        return a[:, 0:1], (lambda b: np.array([b]))
+    if kind == 'rows2':                      # 2-D: every value is a row
+        return np.array([[b, b + 50] for b in base], dtype=np.int64).reshape(-1, 2), (lambda b: np.array([b, b + 50]))
+    if kind == 'rows2T':                     # the same rows as a transposed (non C-contiguous) view
+        a = np.array([[b for b in base], [b + 50 for b in base]], dtype=np.int64).reshape(2, -1)
+        return a.T, (lambda b: np.array([b, b + 50]))
+    if kind == 'bcast2':                     # broadcast view (stride 0, read-only)
+        return np.broadcast_to(np.array(base, dtype=np.int64).reshape(-1, 1), (len(base), 3)), \
+            (lambda b: np.array([b, b, b]))
+    if kind == 'rows3d':
+        return np.array([[[b, b + 50]] for b in base], dtype=np.int64).reshape(-1, 1, 2), \
+            (lambda b: np.array([[b, b + 50]]))
+    raise ValueError(kind)
+
+
+def mat_fixed(fkind, e):
+    """the same logical value as element `e`, in another scalar type"""
+    np = _np()
+    if e is None or (isinstance(e, np.ndarray) and e.size != 1):
+        return e
+    if isinstance(e, np.ndarray):
+        e = e.reshape(-1)[0]
+    if fkind == 'same':
+        return e
+    cplx = isinstance(e, (complex, np.complexfloating))
+    if cplx:
+        return complex(e) if fkind != 'np.complex128' else np.complex128(e)
+    integral = float(e) == int(float(e)) and abs(float(e)) < 2 ** 53
+    if fkind == 'pyint':
+        return int(e) if integral else float(e)
+    if fkind == 'pyfloat':
+        return float(e)
+    if fkind == '0d':
+        return np.array(e)
+    if fkind.startswith('np.'):
+        dt = np.dtype(fkind[3:])
+        if dt.kind in 'iu' and (not integral or (dt.kind == 'u' and float(e) < 0)
+                                or not (np.iinfo(dt).min <= int(e) <= np.iinfo(dt).max)):
+            return float(e)
+        if dt.kind == 'f' and float(dt.type(float(e))) != float(e):
+            return float(e)           # a narrower float would change the value: keep the twin exact
+        return dt.type(e)
+    raise ValueError(fkind)
+
+
+class Mat:
+    """how the logical content of a case is handed to the library, and the way back"""
+
+    def __init__(self, case):
+        m = case.get('mat') or {}
+        self.pk = dict(m.get('params', {}))
+        self.new = list(m.get('new', ['list']))
+        self.fk = m.get('fixed', 'same')
+        self.ok = m.get('outs', 'int')
+        self.rk = m.get('repmax', 'int')
+        self.ik = m.get('index', 'int')
+        self.table = {}
+        self.elemfn = {}
+        self.kind = {}
+        self.inputs = []          # R3: (what, object handed to the library, snapshot at that time)
+
+    # parameters ---------------------------------------------------------
+    def container(self, name, base, kind=None):
+        kind = kind or self.pk.get(name, 'list')
+        obj, fn = mat_container(kind, base)
+        self.kind[name] = kind
+        self.elemfn[name] = fn
+        t = {}
+        for b, e in zip(base, obj):
+            t.setdefault(elem_key(e), b)
+        self.table[name] = t
+        self.inputs.append(('parameter %s (%s)' % (name, kind), obj, snap(obj)))
+        return obj
+
+    def new_kind(self, i):
+        return self.new[i % len(self.new)]
+
+    def canon(self, name, e):
+        """base integer of an element seen in the library's output (or a marker that matches nothing)"""
+        t = self.table.get(name)
+        if t is None:
+            return e if isinstance(e, int) and not isinstance(e, bool) else '?%r' % (e,)
+        try:
+            return t[elem_key(e)]
+        except Exception:
+            return '?%r' % (e,)
+
+    def lookable(self, name):
+        return self.kind.get(name, 'list') not in NOT_LOOKABLE
+
+    def fixed(self, fx):
+        """the fixed-values dictionary handed to a look-up"""
+        out = {}
+        for k, v in fx:
+            if k in self.elemfn:
+                try:
+                    e = self.elemfn[k](v)
+                except (OverflowError, ValueError):
+                    e = float(v)          # not representable in the narrow type: certainly not in the grid
+                out[k] = mat_fixed(self.fk, e)
+            else:
+                out[k] = v
+        self.inputs.append(('fixed values %r' % (fx,), out, snap(out)))
+        return out
+
+    # repetitions --------------------------------------------------------
+    def repmax(self, k):
+        np = _np()
+        return k if self.rk == 'int' else np.dtype(self.rk[3:]).type(k)
+
+    def index(self, i):
+        np = _np()
+        if self.ik == 'int':
+            return i
+        if self.ik == 'str':
+            return str(i)
+        return np.dtype(self.ik[3:]).type(i)
+
+    # outcomes -----------------------------------------------------------
+    def out(self, o):
+        np = _np()
+        k = self.ok
+        if k == 'int':
+            return o
+        if k == 'float':
+            return float(o)
+        if k.startswith('np.'):
+            return np.dtype(k[3:]).type(o)
+        if k.startswith('p2:'):
+            return float(o) * 2.0 ** int(k[3:])
+        if k.startswith('dec:'):
+            return o * float(k[4:])
+        raise ValueError(k)
+
+    def _scale(self):
+        k = self.ok
+        if k.startswith('p2:'):
+            return Fraction(2) ** int(k[3:])
+        if k.startswith('dec:'):
+            return Fraction(float(k[4:]))
+        return Fraction(1)
+
+    def base_num(self, x, power=1):
+        """the base (unscaled) integer behind a stored number; comparisons are RELATIVE to the scale"""
+        try:
+            f = Fraction(int(x)) if isinstance(x, (int, _np().integer)) else Fraction(float(x))
+        except Exception:
+            return repr(x)
+        q = f / self._scale() ** power
+        r = round(q)
+        if q == r or (self.ok.startswith('dec:') and abs(q - r) <= Fraction(1, 10 ** 9) * max(1, abs(r))):
+            return int(r)
+        return repr(x)
+
+
+def snap(x):
+    """deep structural snapshot (type, dtype, shape, values) used to detect that an input or a returned
+    object was modified later"""
+    np = _np()
+    if isinstance(x, np.ndarray):
+        return ('nd', x.dtype.str, x.shape, x.tolist())
+    if isinstance(x, (list, tuple)):
+        return (type(x).__name__, [snap(e) for e in x])
+    if isinstance(x, dict):
+        return ('dict', sorted(((str(k), snap(v)) for k, v in x.items()), key=lambda t: t[0]))
+    if isinstance(x, (set, frozenset)):
+        return ('set', sorted(str(e) for e in x))
+    if isinstance(x, np.generic):
+        return ('np', x.dtype.str, x.item())
+    return (type(x).__name__, x)
+
+
+def mat_desc(case):
+    """short description of the materialisation, used in failure classes (computed from the input)"""
+    m = case.get('mat') or {}
+    bits = sorted(set(m.get('params', {}).values()) | set(k for k in m.get('new', []) if k != 'list'))
+    for key in ('fixed', 'outs', 'repmax', 'index'):
+        if m.get(key) not in (None, 'same', 'int'):
+            bits.append('%s=%s' % (key, m[key]))
+    return ','.join(bits) or 'plain'
+
+
+def tag_class(case, cls):
+    rc = case.get('rclass')
+    return '%s:%s' % (rc, cls) if rc else cls
+
+
 # ------------------------------------------------------------------ implementation adapter
 def _int(x):
     """exact integer value of an int / integral float (anything else is shown verbatim)"""
@@ -121,11 +407,14 @@ def _int(x):
         return repr(x)
 
 
-def _stat(res, j):
-    """sufficient statistics of the j-th stored variation of a SimulationResults object"""
+def _stat(res, j, mat=None):
+    """sufficient statistics of the j-th stored variation of a SimulationResults object, as BASE integers
+    (type and scale of the values `_run_simulation` returned are undone; tolerance relative to the scale)"""
+    mat = mat or Mat({})
     s, ra, mi, tk, sk = (res[n][j] for n in ('sum', 'ratio', 'misc', 'tok', 'num_skipped_reps'))
-    return '/'.join([_int(s._value), _int(s._result_squared_sum), _int(s.num_updates), _int(ra._value),
-                     _int(ra._total), _int(ra.num_updates), _int(mi._value), _int(tk._value)]), _int(sk._value)
+    return '/'.join([str(mat.base_num(s._value)), str(mat.base_num(s._result_squared_sum, 2)),
+                     _int(s.num_updates), _int(ra._value), _int(ra._total), _int(ra.num_updates),
+                     str(mat.base_num(mi._value)), _int(tk._value)]), _int(sk._value)
 
 
 def _reps(x):
@@ -136,22 +425,25 @@ def _reps(x):
     return 'S:%d' % int(x)
 
 
-def make_params(case):
+def make_params(case, mat=None):
     from pyphysim.simulations.parameters import SimulationParameters
+    mat = mat or Mat(case)
     p = SimulationParameters()
     p.add(FIXED_EXTRA, FIXED_EXTRA_VALUE)
     for n in case['names']:
-        p.add(n, list(case['vals'][n]))
+        p.add(n, mat.container(n, case['vals'][n]))
         p.set_unpack_parameter(n)
     return p
 
 
-def make_runner(case):
+def make_runner(case, mat=None, content=None, repmax=None):
     """a SimulationRunner whose `_run_simulation` replays case['outs'] and whose `_keep_going`
-    applies case['keep']; both log what they see"""
+    applies case['keep']; both log what they see (in base integers). `content` = (dict, unpacked set)
+    overrides the initial grid of the case (used for freshly built twins)."""
     from pyphysim.simulations.results import Result, SimulationResults
     from pyphysim.simulations.runner import SimulationRunner, SkipThisOne
     outs = case['outs']
+    mat = mat or Mat(case)
 
     class Scripted(SimulationRunner):
         def __init__(self):
@@ -171,20 +463,20 @@ def make_runner(case):
             # the values this variation carries for the parameters that are unpacked right now
             names = list(self.params._unpacked_parameters_set)
             self.calllog.append((current_parameters.unpack_index, c, o,
-                                 {n: current_parameters[n] for n in names}))
+                                 {n: mat.canon(n, current_parameters[n]) for n in names}))
             self.events.append(('run',) + self.calllog[-1])
             if o == 's':
                 raise SkipThisOne('scripted skip')
             r = SimulationResults()
-            r.add_new_result('sum', Result.SUMTYPE, o)
+            r.add_new_result('sum', Result.SUMTYPE, mat.out(o))
             r.add_new_result('ratio', Result.RATIOTYPE, abs(o) % 5, 8)
-            r.add_new_result('misc', Result.MISCTYPE, o)
+            r.add_new_result('misc', Result.MISCTYPE, mat.out(o))
             r.add_new_result('tok', Result.SUMTYPE, 1 << c)
             return r
 
         def _keep_going(self, current_params, current_sim_results, current_rep):
             pos = max(current_params.unpack_index, 0)
-            sm = current_sim_results['sum'][-1]._value
+            sm = mat.base_num(current_sim_results['sum'][-1]._value)
             v = eval_rule(rule_for(case, pos), sm,
                           current_sim_results['num_skipped_reps'][-1]._value, current_rep)
             self.events.append(('keep', current_params.unpack_index, sm,
@@ -192,47 +484,77 @@ def make_runner(case):
             return v
 
     runner = Scripted()
-    runner.rep_max = case['repmax']
+    runner.mat = mat
+    runner.rep_max = mat.repmax(case['repmax'] if repmax is None else repmax)
     p = runner.params
     p.add(FIXED_EXTRA, FIXED_EXTRA_VALUE)
-    for n in case['names']:
-        p.add(n, list(case['vals'][n]))
-        p.set_unpack_parameter(n)
+    if content is None:
+        for n in case['names']:
+            p.add(n, mat.container(n, case['vals'][n]))
+            p.set_unpack_parameter(n)
+    else:
+        d, u = content
+        for n in sorted(d):
+            v = d[n]
+            p.add(n, mat.container(n, v, mat.kind.get(n)) if isinstance(v, list) else v)
+        for n in sorted(u):
+            p.set_unpack_parameter(n)
     return runner
+
+
+def observe(runner, tmp, with_store=True):
+    """every observable of the runner the property speaks about (for before/after comparisons)"""
+    from pyphysim.simulations.results import SimulationResults
+    res = runner.results
+    nres = len(res['sum']) if 'sum' in res.get_result_names() else 0
+    stats = [_stat(res, j, runner.mat) for j in range(nres)]
+    store = {}
+    if with_store and tmp is not None:
+        for fn in sorted(os.listdir(tmp)):
+            if '_unpack_' in fn:
+                idx = int(fn.split('_unpack_')[1].split('.')[0])
+                sr = SimulationResults.load_from_file(os.path.join(tmp, fn))
+                st, sk = _stat(sr, 0, runner.mat)
+                store[idx] = (int(sr.current_rep), sk, st)
+    p = runner.params
+    return {'stats': stats, 'reps': _reps(runner.runned_reps), 'rr': _reps(res.runned_reps), 'store': store,
+            'params': snap({k: v for k, v in p.parameters.items()}), 'unpacked': sorted(p._unpacked_parameters_set),
+            'rep_max': int(runner.rep_max), 'results_id': id(res)}
+
+
+def diff_obs(a, b, ignore=()):
+    return [k for k in a if k not in ignore and a[k] != b[k]]
 
 
 def run_op(runner, op, tmp):
     """one simulate() / simulate(index) call; returns (canonical part, observation)"""
-    from pyphysim.simulations.results import SimulationResults
     start = len(runner.calllog)
     estart = len(runner.events)
+    before = observe(runner, tmp)
     status = 'ok'
     try:
         if op == 'all':
             runner.simulate()
         else:
-            runner.simulate(int(op.split(':')[1]))
+            runner.simulate(runner.mat.index(int(op.split(':')[1])))
     except ScriptExhausted:
         status = 'Exhausted'
     except Exception as e:  # SkipThisOne, RuntimeError, ...
         status = type(e).__name__
     calls = runner.calllog[start:]
-    res = runner.results
-    nres = len(res['sum']) if 'sum' in res.get_result_names() else 0
-    stats = [_stat(res, j) for j in range(nres)]
-    store = {}
-    for fn in sorted(os.listdir(tmp)):
-        if '_unpack_' in fn:
-            idx = int(fn.split('_unpack_')[1].split('.')[0])
-            sr = SimulationResults.load_from_file(os.path.join(tmp, fn))
-            st, sk = _stat(sr, 0)
-            store[idx] = (int(sr.current_rep), sk, st)
+    after = observe(runner, tmp)
+    stats, store = after['stats'], after['store']
     part = 'st=%s log=%s reps=%s rr=%s res=%s store=%s' % (
-        status, ','.join(str(c[0]) for c in calls), _reps(runner.runned_reps), _reps(res.runned_reps),
+        status, ','.join(str(c[0]) for c in calls), after['reps'], after['rr'],
         '|'.join('%s/%s' % s for s in stats),
         '|'.join('%d:%d:%s:%s' % ((i,) + store[i]) for i in sorted(store)))
     ob = {'status': status, 'calls': calls, 'events': runner.events[estart:], 'reps': runner.runned_reps,
           'stats': stats, 'store': dict(store)}
+    if status not in ('ok', 'Exhausted', 'SkipThisOne'):
+        # R4: a rejected call must leave every observable as it was
+        ob['rejected_changed'] = diff_obs(before, after, ignore=('results_id',))
+    # R3: what was handed to the library must not have been modified
+    ob['inputs_mutated'] = [w for w, o, sn in runner.mat.inputs if snap(o) != sn]
     return part, ob
 
 
@@ -240,7 +562,8 @@ def run_impl(case, scratch):
     """Run the scenario on the real code. Returns (canonical string, observations)."""
     tmp = tempfile.mkdtemp(prefix='c05_', dir=scratch)
     try:
-        runner = make_runner(case)
+        mat = Mat(case)
+        runner = make_runner(case, mat)
         if case['file']:
             runner.set_results_filename(os.path.join(tmp, 'res'))
             runner.partial_results_folder = None
@@ -252,14 +575,22 @@ def run_impl(case, scratch):
             obs['ops'].append(ob)
         looks = []
         obs['look'] = []
+        returned = []
         for fx in case['look']:
+            before = observe(runner, tmp, with_store=False)
             try:
-                v = runner.results.get_result_values_list('tok', dict(fx))
+                v = runner.results.get_result_values_list('tok', mat.fixed(fx))
                 looks.append(','.join(_int(x) for x in v))
                 obs['look'].append(('ok', [int(x) for x in v]))
+                returned.append(('get_result_values_list%r' % (fx,), v, snap(v)))
             except BaseException as e:
                 looks.append('error:' + type(e).__name__)
                 obs['look'].append(('error', type(e).__name__))
+            ch = diff_obs(before, observe(runner, tmp, with_store=False))
+            if ch:
+                obs.setdefault('lookup_changed_state', []).append((fx, ch))
+        obs['inputs_mutated'] = [w for w, o, sn in mat.inputs if snap(o) != sn]
+        obs['returned_changed'] = [w for w, o, sn in returned if snap(o) != sn]
         return ' ; '.join(parts) + ' ; look=' + '/'.join(looks), obs
     finally:
         shutil.rmtree(tmp, ignore_errors=True)
@@ -275,17 +606,17 @@ def hist_line(case):
 
 
 def parse_hop(op):
-    """('all',) | ('padd', name, [ints]) | ('pscalar', name, int) | ('prem', name) |
-    ('punp', name, bool) | ('q', [(name, value)])"""
+    """('all',) | ('single', i) | ('rmax', k) | ('file', b) | ('del', b) | ('padd', name, [ints]) |
+    ('pscalar', name, int) | ('prem', name) | ('punp', name, bool) | ('q', fixed) | ('hq', fixed)"""
     if op == 'all':
         return ('all',)
-    if op.startswith('q:'):
-        body = op[2:]
+    if op.startswith('q:') or op.startswith('hq:'):
+        kind, body = op.split(':', 1)
         fx = []
         for t in [x for x in body.split('+') if x]:
             k, v = t.split(':')
             fx.append((k, int(v)))
-        return ('q', fx)
+        return (kind, fx)
     t = op.split(':')
     if t[0] == 'padd':
         return ('padd', t[1], [int(x) for x in t[2].split('.') if x])
@@ -295,12 +626,17 @@ def parse_hop(op):
         return ('prem', t[1])
     if t[0] == 'punp':
         return ('punp', t[1], t[2] == '1')
+    if t[0] in ('single', 'rmax'):
+        return (t[0], int(t[1]))
+    if t[0] in ('file', 'del'):
+        return (t[0], t[1] == '1')
     raise ValueError(op)
 
 
-def apply_content(content, hop):
+def apply_content(content, hop, repmax=None, file=True):
     """what the parameters object must store after the call (own bookkeeping, Python dict/set
-    semantics of the documented API); content = (dict name -> list | int, set of unpacked names)"""
+    semantics of the documented API); content = (dict name -> list | int, set of unpacked names).
+    A simulate() call stores the current rep_max under 'rep_max' (a refused one does not)."""
     d, u = content
     if hop[0] == 'padd':
         d[hop[1]] = list(hop[2])
@@ -316,28 +652,39 @@ def apply_content(content, hop):
                 u.add(hop[1])
             else:
                 u.discard(hop[1])
+    elif hop[0] == 'all' or (hop[0] == 'single' and file):
+        if repmax is not None:
+            d['rep_max'] = repmax
 
 
-def query_params(p, res, fx, with_results):
+def copy_content(content):
+    return ({k: (list(v) if isinstance(v, list) else v) for k, v in content[0].items()}, set(content[1]))
+
+
+def query_params(p, res, mfx, with_results, mat):
     """every look-up the property speaks about, on the parameters object `p` (and the results
-    object `res`): (num, combos, unpack indexes, pack, values)"""
+    object `res`): (num, combos, unpack indexes, pack, values); values in base integers"""
     out = {}
     try:
         out['n'] = int(p.get_num_unpacked_variations())
         lst = p.get_unpacked_params_list()
         names = sorted(p._unpacked_parameters_set)
-        out['combos'] = [[c[n] for n in names] for c in lst]
+        out['combos'] = [[mat.canon(n, c[n]) for n in names] for c in lst]
         out['idx'] = [c.unpack_index for c in lst]
     except Exception as e:
         out['error'] = type(e).__name__
         return out
     try:
-        out['pack'] = ('ok', [int(x) for x in p.get_pack_indexes(dict(fx))])
+        arr = p.get_pack_indexes(mfx)
+        out['pack'] = ('ok', [int(x) for x in arr])
+        out['pack_obj'] = arr
     except BaseException as e:
         out['pack'] = ('error', type(e).__name__)
     if with_results:
         try:
-            out['rv'] = ('ok', [int(x) for x in res.get_result_values_list('tok', dict(fx))])
+            v = res.get_result_values_list('tok', mfx)
+            out['rv'] = ('ok', [int(x) for x in v])
+            out['rv_obj'] = v
         except BaseException as e:
             out['rv'] = ('error', type(e).__name__)
     return out
@@ -348,56 +695,151 @@ def _show_pack(r):
 
 
 def run_hist_impl(case, scratch):
-    """simulate() calls, look-ups and mutations of the parameter set interleaved on ONE runner /
-    ONE SimulationParameters object.  Every look-up is also made on a freshly constructed
-    SimulationParameters (+ SimulationResults holding the same Result objects) with the same content."""
+    """simulate() calls, look-ups, mutations of the parameter set and changes of runner attributes
+    (rep_max, results file on/off, delete_partial_results_bool) interleaved on ONE runner / ONE
+    SimulationParameters object.  Recorded besides the canonical string:
+      * every look-up repeated on a freshly constructed SimulationParameters / SimulationResults with the
+        same content (R7: no stale derived state);
+      * every simulate() without a results file repeated on a freshly built runner with the current
+        configuration and the same remaining outcomes (R7);
+      * snapshots of everything handed to the library and of everything it returned, re-compared after
+        later calls (R3); results objects held by the caller re-queried at the end (R3);
+      * all observables before / after every rejected call (R4)."""
     from pyphysim.simulations.parameters import SimulationParameters
     from pyphysim.simulations.results import SimulationResults
+    np = _np()
     tmp = tempfile.mkdtemp(prefix='c05h_', dir=scratch)
+    tmp2 = tempfile.mkdtemp(prefix='c05t_', dir=scratch)
     try:
-        runner = make_runner(case)
+        mat = Mat(case)
+        runner = make_runner(case, mat)
+        runner.partial_results_folder = None
         content = ({n: list(case['vals'][n]) for n in case['names']}, set(case['names']))
+        repmax = case['repmax']
+        file_on = False
         parts = []
         obs = {'ops': []}
         simulated = False
+        res_content = None
+        returned = []      # (what, object returned earlier, snapshot then)
+        held = []          # (results object, materialised fixed, answer then)
+        nnew = 0
         for op in case['ops']:
             hop = parse_hop(op)
-            if hop[0] == 'all':
-                part, ob = run_op(runner, 'all', tmp)
-                simulated = True
-                ob['kind'] = 'all'
-                ob['content'] = ({k: (list(v) if isinstance(v, list) else v) for k, v in content[0].items()},
-                                 set(content[1]))
-            elif hop[0] == 'q':
-                q = query_params(runner.params, runner.results, hop[1], simulated)
-                fresh = SimulationParameters()
-                fresh.add(FIXED_EXTRA, FIXED_EXTRA_VALUE)
-                for k in sorted(content[0]):
-                    v = content[0][k]
-                    fresh.add(k, list(v) if isinstance(v, list) else v)
-                for k in sorted(content[1]):
-                    fresh.set_unpack_parameter(k)
-                fres = SimulationResults()
-                fres._results = {k: list(v) for k, v in runner.results._results.items()}
-                fres.set_parameters(fresh)
-                qf = query_params(fresh, fres, hop[1], simulated)
-                if 'error' in q:
-                    part = 'q=' + q['error']
+            ob = {'kind': hop[0]}
+            if hop[0] in ('all', 'single'):
+                refused = hop[0] == 'single' and not file_on
+                twin = None
+                if not file_on and hop[0] == 'all':
+                    # R7: a freshly built runner with the current configuration, same remaining outcomes
+                    tmat = Mat(case)
+                    tmat.kind = dict(mat.kind)
+                    tw = make_runner(case, tmat, content=copy_content(content), repmax=repmax)
+                    tw.pos = runner.pos
+                    tpart, tob = run_op(tw, 'all', tmp2)
+                    twin = (tpart, tob['calls'])
+                part, ob2 = run_op(runner, op if hop[0] == 'all' else 'single:%d' % hop[1], tmp)
+                ob.update(ob2)
+                ob['twin'] = twin
+                ob['part'] = part
+                ob['cfg'] = {'repmax': repmax, 'file': file_on, 'delete': bool(runner.delete_partial_results_bool),
+                             'content': copy_content(content), 'op': op}
+                if not refused:
+                    simulated = True
+                    apply_content(content, hop, repmax, file_on)
+                    res_content = (copy_content(content), dict(mat.kind))
+            elif hop[0] in ('rmax', 'file', 'del'):
+                if hop[0] == 'rmax':
+                    repmax = hop[1]
+                    runner.rep_max = mat.repmax(repmax)
+                elif hop[0] == 'file':
+                    file_on = hop[1]
+                    runner.set_results_filename(os.path.join(tmp, 'res') if file_on else None)
                 else:
-                    part = 'n=%d nc=%d combos=%s pack=%s rv=%s' % (
-                        q['n'], len(q['combos']), '|'.join('.'.join(str(v) for v in c) for c in q['combos']),
-                        _show_pack(q['pack']), _show_pack(q['rv']) if simulated else '-')
-                ob = {'kind': 'q', 'q': q, 'fresh': qf, 'fixed': hop[1],
-                      'content': ({k: (list(v) if isinstance(v, list) else v) for k, v in content[0].items()},
-                                  set(content[1]))}
+                    runner.delete_partial_results_bool = hop[1]
+                part = 'a=ok'
+            elif hop[0] in ('q', 'hq'):
+                before = observe(runner, tmp, with_store=False)
+                mfx = mat.fixed(hop[1])
+                if hop[0] == 'hq':
+                    if not simulated:
+                        part = 'h=-'
+                    else:
+                        try:
+                            v = runner.results.get_result_values_list('tok', mfx)
+                            ans = ('ok', [int(x) for x in v])
+                        except BaseException as e:
+                            ans = ('error', type(e).__name__)
+                        held.append((runner.results, mfx, ans))
+                        part = 'h=' + _show_pack(ans)
+                else:
+                    q = query_params(runner.params, runner.results, mfx, simulated, mat)
+                    fmat = Mat(case)
+                    fmat.kind = dict(mat.kind)
+                    fresh = SimulationParameters()
+                    fresh.add(FIXED_EXTRA, FIXED_EXTRA_VALUE)
+                    for k in sorted(content[0]):
+                        v = content[0][k]
+                        fresh.add(k, fmat.container(k, v, mat.kind.get(k)) if isinstance(v, list) else v)
+                    for k in sorted(content[1]):
+                        fresh.set_unpack_parameter(k)
+                    # the results object carries the parameters it was simulated with
+                    rp = runner.results.params
+                    fres = SimulationResults()
+                    fres._results = {k: list(v) for k, v in runner.results._results.items()}
+                    fres.set_parameters(fresh)
+                    qf = query_params(fresh, fres, fmat.fixed(hop[1]), False, fmat)
+                    if simulated:
+                        # ... i.e. the content at the time of the last simulate()
+                        rmat = Mat(case)
+                        rmat.kind = dict(res_content[1])
+                        fresh2 = SimulationParameters()
+                        fresh2.add(FIXED_EXTRA, FIXED_EXTRA_VALUE)
+                        for k in sorted(res_content[0][0]):
+                            v = res_content[0][0][k]
+                            fresh2.add(k, rmat.container(k, v, rmat.kind.get(k)) if isinstance(v, list) else v)
+                        for k in sorted(res_content[0][1]):
+                            fresh2.set_unpack_parameter(k)
+                        fres.set_parameters(fresh2)
+                        try:
+                            qf['rv'] = ('ok', [int(x) for x in fres.get_result_values_list('tok', mfx)])
+                        except BaseException as e:
+                            qf['rv'] = ('error', type(e).__name__)
+                        ob['res_content'] = res_content[0]
+                    for key in ('pack_obj', 'rv_obj'):
+                        if key in q:
+                            o = q.pop(key)
+                            returned.append(('%s %s' % (key[:-4], op), o, snap(o)))
+                            if isinstance(o, np.ndarray) and any(
+                                    isinstance(i, np.ndarray) and np.shares_memory(o, i) for _, i, _ in mat.inputs):
+                                ob['aliases_input'] = True
+                        qf.pop(key, None)
+                    if 'error' in q:
+                        part = 'q=' + q['error']
+                    else:
+                        part = 'n=%d nc=%d combos=%s pack=%s rv=%s' % (
+                            q['n'], len(q['combos']), '|'.join('.'.join(str(v) for v in c) for c in q['combos']),
+                            _show_pack(q['pack']), _show_pack(q['rv']) if simulated else '-')
+                    ob.update({'q': q, 'fresh': qf, 'fixed': hop[1], 'content': copy_content(content),
+                               'results_params_shared': rp is runner.params})
+                ch = diff_obs(before, observe(runner, tmp, with_store=False))
+                if ch:
+                    ob['lookup_changed_state'] = ch
             else:
+                before = observe(runner, tmp, with_store=False)
                 status = 'ok'
                 p = runner.params
                 try:
                     if hop[0] == 'padd':
-                        p.add(hop[1], list(hop[2]))
+                        kind = mat.kind.get(hop[1]) if hop[1] in mat.kind and mat.new == ['list'] \
+                            else mat.new_kind(nnew)
+                        nnew += 1
+                        p.add(hop[1], mat.container(hop[1], hop[2], kind))
                     elif hop[0] == 'pscalar':
-                        p.add(hop[1], hop[2])
+                        mat.kind.pop(hop[1], None)
+                        mat.table.pop(hop[1], None)
+                        mat.elemfn.pop(hop[1], None)
+                        p.add(hop[1], np.array(hop[2]) if case.get('zerod') else hop[2])
                     elif hop[0] == 'prem':
                         p.remove(hop[1])
                     else:
@@ -406,12 +848,29 @@ def run_hist_impl(case, scratch):
                     status = type(e).__name__
                 apply_content(content, hop)
                 part = 'p=' + status
-                ob = {'kind': 'p', 'status': status}
+                ob['status'] = status
+                if status != 'ok':
+                    ob['rejected_changed'] = diff_obs(before, observe(runner, tmp, with_store=False))
+            ob['inputs_mutated'] = [w for w, o, sn in mat.inputs if snap(o) != sn]
             parts.append(part)
             obs['ops'].append(ob)
+        # R3 at the end of the history: objects returned / held earlier still say what they said
+        obs['returned_changed'] = [w for w, o, sn in returned if snap(o) != sn]
+        obs['held'] = []
+        helds = []
+        for res, mfx, ans in held:
+            try:
+                v = res.get_result_values_list('tok', mfx)
+                now = ('ok', [int(x) for x in v])
+            except BaseException as e:
+                now = ('error', type(e).__name__)
+            obs['held'].append((ans, now))
+            helds.append(_show_pack(now))
+        parts.append('held=' + '|'.join(helds))
         return ' ; '.join(parts), obs
     finally:
         shutil.rmtree(tmp, ignore_errors=True)
+        shutil.rmtree(tmp2, ignore_errors=True)
 
 
 def _pseudo(case, content):
@@ -421,80 +880,160 @@ def _pseudo(case, content):
     return dict(case, names=names, vals={n: d[n] for n in names}, file=False, look=[])
 
 
+HIST_CALLS = {'padd': 'SimulationParameters.add', 'pscalar': 'SimulationParameters.add',
+              'prem': 'SimulationParameters.remove', 'punp': 'SimulationParameters.set_unpack_parameter',
+              'all': 'SimulationRunner.simulate', 'single': 'SimulationRunner.simulate',
+              'q': 'SimulationParameters.get_pack_indexes', 'hq': 'SimulationResults.get_result_values_list'}
+
+
 def oracle_hist(case, obs):
-    """Property on a history with parameter mutations: every simulate() obeys the repetition
-    discipline ON THE CURRENT GRID, and every look-up (a) equals the look-up on a freshly built
-    object with the same content (no stale derived state) and (b) returns the combinations that
-    carry the fixed values of the current grid (first principles)."""
+    """Property on a history that mutates the parameter set and the runner attributes:
+      * every simulate() obeys the repetition discipline for the CURRENT grid, the CURRENT rep_max, the
+        current results-file setting (first principles, from the event log);
+      * every look-up equals the look-up on a freshly built object with the same content, every simulate()
+        without a results file equals the one of a freshly built runner (R7: no stale state);
+      * look-ups return the combinations that carry the fixed values (first principles);
+      * rejected calls change nothing (R4); inputs, returned objects and held results objects are not
+        modified by later calls (R3)."""
     out = []
-    last_all = None      # (stats, content-at-that-time) of the last completed simulate()
+
+    def emit(call, cls, detail):
+        out.append((call, tag_class(case, cls), detail))
+
+    # ---- simulate() calls, first principles with the configuration in force at each call
+    cfgs, sobs = [], []
+    last_attr = None
+    for op, ob in zip(case['ops'], obs['ops']):
+        k = ob['kind']
+        if k in ('rmax', 'file', 'del'):
+            last_attr = {'rmax': 'rep_max', 'file': 'results-file', 'del': 'delete-partial'}[k]
+        if k in ('all', 'single'):
+            d, u = ob['cfg']['content']
+            names = sorted(u)
+            if any(not isinstance(d[n], list) for n in names):
+                break
+            tag = None
+            if 'rep_max' in d and d['rep_max'] != ob['cfg']['repmax']:
+                tag = 'R7:rep_max-entry-in-params-differs'
+            elif last_attr:
+                tag = 'R7:after-%s-change' % last_attr
+            cfgs.append(dict(op=ob['cfg']['op'], names=names, vals={n: d[n] for n in names},
+                             repmax=ob['cfg']['repmax'], file=ob['cfg']['file'], delete=ob['cfg']['delete'],
+                             tag=tag))
+            sobs.append(ob)
+    out += oracle_sim(dict(case, look=[]), {'ops': sobs, 'look': []}, cfgs)
+    if out:
+        return out
+    # ---- everything else, in history order
+    last_stats = None     # stats of the results object in place (None: not a completed all-variations run)
     mutated = False
     for opi, (op, ob) in enumerate(zip(case['ops'], obs['ops'])):
-        if ob['kind'] == 'p':
+        k = ob['kind']
+        call = HIST_CALLS.get(k, 'SimulationRunner.simulate')
+        recent = case['ops'][max(0, opi - 3):opi + 1]
+        if ob.get('inputs_mutated'):
+            emit(call, 'R3:input-mutated', 'after %r: %r' % (recent, ob['inputs_mutated'][:3]))
+            return out
+        if ob.get('rejected_changed'):
+            emit(call, 'R4:rejected-call-changed-state', '%s raised %s and changed %r'
+                 % (op, ob.get('status'), ob['rejected_changed']))
+            return out
+        if ob.get('lookup_changed_state'):
+            emit(call, 'R3:lookup-changed-state', '%s changed %r' % (op, ob['lookup_changed_state']))
+            return out
+        if ob.get('aliases_input'):
+            emit(call, 'R3:output-aliases-input', '%s returned an array sharing memory with a parameter' % op)
+            return out
+        if k in ('padd', 'pscalar', 'prem', 'punp'):
             mutated = True
-            last_all = (last_all[0], None) if last_all else None
             continue
-        if ob['kind'] == 'all':
-            pc = _pseudo(case, ob['content'])
-            if any(not isinstance(v, list) for v in pc['vals'].values()):
-                continue
-            v = oracle_sim(dict(pc, ops=['all']), {'ops': [ob], 'look': []})
-            if v:
-                return out + v
-            last_all = (ob['stats'], ob['content']) if ob['status'] == 'ok' else None
+        if k in ('all', 'single'):
+            if ob.get('twin') is not None and (ob['twin'][0].split(' store=')[0] != ob['part'].split(' store=')[0]
+                                               or ob['twin'][1] != ob['calls']):
+                emit(call, 'R7:differs-from-fresh-runner',
+                     'after %r: used runner %s | freshly built runner with the same configuration %s'
+                     % (recent, ob['part'][:200], ob['twin'][0][:200]))
+                return out
+            refused = k == 'single' and not ob['cfg']['file']
+            if not refused:
+                last_stats = ob['stats'] if (k == 'all' and ob['status'] == 'ok') else None
+            continue
+        if k != 'q':
             continue
         q, qf = ob['q'], ob['fresh']
         pc = _pseudo(case, ob['content'])
-        stale_cls = 'stale-derived-state' if mutated else 'differs-from-fresh-object'
+        stale_cls = 'R7:stale-derived-state' if mutated else 'R7:differs-from-fresh-object'
         pairs = [('SimulationParameters.get_num_unpacked_variations', 'n'),
                  ('SimulationParameters.get_unpacked_params_list', 'combos'),
                  ('SimulationParameters.get_unpacked_params_list', 'idx'),
                  ('SimulationParameters.get_pack_indexes', 'pack'),
                  ('SimulationResults.get_result_values_list', 'rv'),
                  ('SimulationParameters.get_num_unpacked_variations', 'error')]
-        for call, k in pairs:
-            if q.get(k) != qf.get(k):
-                out.append((call, stale_cls, 'after %r: %s = %r on the used object, %r on a fresh object with '
-                            'the same content' % (case['ops'][:opi + 1][-4:], k, q.get(k),
-                                                  qf.get(k))))
+        for c2, key in pairs:
+            if q.get(key) != qf.get(key):
+                cls = stale_cls
+                if key == 'rv' and ob.get('results_params_shared') and q.get('pack') == qf.get('pack'):
+                    cls = 'R3:results-object-follows-later-parameter-changes'
+                emit(c2, cls, 'after %r: %s = %r on the used object, %r on a fresh object with the same content'
+                     % (recent, key, q.get(key), qf.get(key)))
         if out:
             return out
         if 'error' in q or any(not isinstance(v, list) for v in pc['vals'].values()):
             continue
         names, dims, n, combo = grid_facts(pc)
         if q['n'] != n or len(q['combos']) != n:
-            out.append(('SimulationParameters.get_num_unpacked_variations', 'wrong-number-of-variations',
-                        'n=%r len=%d expected %d' % (q['n'], len(q['combos']), n)))
+            emit('SimulationParameters.get_num_unpacked_variations', 'wrong-number-of-variations',
+                 'n=%r len=%d expected %d' % (q['n'], len(q['combos']), n))
             return out
         for i in range(n):
-            if q['combos'][i] != [combo(i)[k] for k in names] or q['idx'][i] != (i if names else -1):
-                out.append(('SimulationParameters.get_unpacked_params_list', 'wrong-parameters',
-                            'variation %d is %r (unpack_index %r)' % (i, q['combos'][i], q['idx'][i])))
+            if q['combos'][i] != [combo(i)[x] for x in names] or q['idx'][i] != (i if names else -1):
+                emit('SimulationParameters.get_unpacked_params_list', 'wrong-parameters',
+                     'variation %d is %r (unpack_index %r)' % (i, q['combos'][i], q['idx'][i]))
                 return out
         fx = ob['fixed']
         pos, absent, dup = expected_matches(pc, fx)
         kind, val = q['pack']
         if not (absent and kind == 'error' and val == 'ValueError'):
             if kind != 'ok' or val != pos:
-                out.append(('SimulationParameters.get_pack_indexes', lookup_class(pc, dup),
-                            'fixed=%r returned %r, matching combinations %r' % (fx, val, pos)))
-        if 'rv' in q and last_all and last_all[1] is not None and len(last_all[0]) == n and n > 0:
-            toks = [int(st.split('/')[7]) for st, _ in last_all[0]]
-            kind, val = q['rv']
-            exp = [toks[i] for i in pos] if fx else toks
-            if not (fx and absent and kind == 'error' and val == 'ValueError'):
-                if kind != 'ok' or val != exp:
-                    out.append(('SimulationResults.get_result_values_list', lookup_class(pc, dup),
-                                'fixed=%r returned %r, matching combinations %r -> %r' % (fx, val, pos, exp)))
+                emit('SimulationParameters.get_pack_indexes', lookup_class(pc, dup),
+                     'fixed=%r returned %r, matching combinations %r' % (fx, val, pos))
+        if 'rv' in q and last_stats is not None and ob.get('res_content') is not None:
+            rc = _pseudo(case, ob['res_content'])
+            if all(isinstance(v, list) for v in rc['vals'].values()):
+                rn = grid_facts(rc)[2]
+                rpos, rabsent, rdup = expected_matches(rc, fx)
+                if len(last_stats) == rn and rn > 0:
+                    toks = [int(st.split('/')[7]) for st, _ in last_stats]
+                    kind, val = q['rv']
+                    exp = [toks[i] for i in rpos] if fx else toks
+                    if not (fx and rabsent and kind == 'error' and val == 'ValueError'):
+                        if kind != 'ok' or val != exp:
+                            emit('SimulationResults.get_result_values_list', lookup_class(rc, rdup),
+                                 'fixed=%r returned %r; the results were simulated on %r where the matching '
+                                 'combinations are %r -> %r' % (fx, val, rc['vals'], rpos, exp))
+        if out:
+            return out
+    if obs.get('returned_changed'):
+        emit('SimulationParameters.get_pack_indexes', 'R3:returned-object-changed', '%r' % obs['returned_changed'][:3])
+    for then, now in obs.get('held', []):
+        if then != now:
+            emit('SimulationResults.get_result_values_list', 'R3:held-results-object-changed',
+                 'a results object kept by the caller answered %r, and %r after later calls' % (then, now))
+            break
     return out
 
 
-def content_after(names, vals, ops):
+def content_after(names, vals, ops, repmax=1):
     content = ({n: list(vals[n]) for n in names}, set(names))
+    file_on = False
     for op in ops:
         hop = parse_hop(op)
-        if hop[0] not in ('all', 'q'):
-            apply_content(content, hop)
+        if hop[0] == 'rmax':
+            repmax = hop[1]
+        elif hop[0] == 'file':
+            file_on = hop[1]
+        elif hop[0] not in ('q', 'hq', 'del'):
+            apply_content(content, hop, repmax, file_on)
     return content
 
 
@@ -524,20 +1063,25 @@ def gen_hist(rng):
         return 'q:' + '+'.join('%s:%d' % (k, v) for k, v in fx)
 
     for _ in range(rng.randint(4, 12)):
-        d, u = content_after(names, vals, ops)
+        d, u = content_after(names, vals, ops, repmax)
         k = rng.below(100)
         if k < 28:
             nv = 1
             for nm in u:
                 nv *= len(d[nm])
-            cost = nv * (repmax + 1) + 2
+            cost = nv * (3 + 1) + 2
             if cost <= budget:
                 ops.append('all')
                 budget -= cost
             else:
                 ops.append(fixed(d, u))
-        elif k < 62:
+        elif k < 54:
             ops.append(fixed(d, u))
+        elif k < 58:
+            ops.append('h' + fixed(d, u))                 # keep the results object, ask it again at the end
+        elif k < 62:
+            ops.append(rng.choice(['rmax:%d' % rng.randint(1, 3), 'pscalar:rep_max:%d' % rng.randint(1, 5),
+                                   'single:0', 'prem:rep_max']))
         elif k < 78:
             if u:                                         # replace a value list by one of another length
                 nm = rng.choice(sorted(u))
@@ -569,7 +1113,7 @@ def gen_hist(rng):
             ops.append(rng.choice(['prem:nope', 'punp:nope:1', 'punp:nope:0']))
     if 'all' not in ops:
         ops.insert(rng.below(len(ops) + 1), 'all')
-    d, u = content_after(names, vals, ops)
+    d, u = content_after(names, vals, ops, repmax)
     ops.append(fixed(d, u))
     skip_p = rng.choice([0.0, 0.1, 0.2])
     outs = ['s' if rng.chance(skip_p) else rng.randint(-3, 6) for _ in range(380)]
@@ -577,22 +1121,214 @@ def gen_hist(rng):
                 look=[])
 
 
+def gen_hist2(rng):
+    """R7: a fixed grid, the RUNNER is what changes between the calls: rep_max, results file on / off,
+    delete_partial_results_bool, a 'rep_max' entry in the parameters that differs from runner.rep_max,
+    simulate() / simulate(index) in any order, refused calls in between"""
+    names, vals = gen_grid(rng, max_params=2, max_len=3, dup_p=0.0, empty_p=0.0)
+    nvar = 1
+    for nm in names:
+        nvar *= len(vals[nm])
+    repmax = rng.randint(1, 4)
+    keep = [gen_rule(rng, repmax) for _ in range(rng.choice([1, 1, 2]))]
+    ops = []
+    budget = 330
+    file_on = False
+
+    def fixed():
+        fx = gen_looks(rng, sorted(names), vals, 1)[0]
+        return 'q:' + '+'.join('%s:%d' % (k, v) for k, v in fx)
+
+    for _ in range(rng.randint(4, 11)):
+        k = rng.below(100)
+        if k < 30:
+            if nvar * 5 + 2 <= budget:
+                ops.append('all')
+                budget -= nvar * 5 + 2
+        elif k < 42:
+            ops.append('single:%d' % rng.randint(-1, nvar))
+            budget -= 6
+        elif k < 62:
+            ops.append('rmax:%d' % rng.randint(1, 5))
+        elif k < 72:
+            file_on = not file_on
+            ops.append('file:%d' % (1 if file_on else 0))
+        elif k < 78:
+            ops.append('del:%d' % rng.below(2))
+        elif k < 86:
+            ops.append('pscalar:rep_max:%d' % rng.randint(1, 6))
+        elif k < 92:
+            ops.append(fixed())
+        elif k < 96:
+            ops.append('h' + fixed())
+        else:
+            ops.append(rng.choice(['prem:nope', 'punp:nope:1', 'prem:rep_max']))
+    if 'all' not in ops:
+        ops.append('all')
+    if not any(o.startswith('rmax') for o in ops):
+        i = rng.randint(1, len(ops))
+        ops[i:i] = ['rmax:%d' % rng.randint(1, 5), 'all']
+    ops.append(fixed())
+    skip_p = rng.choice([0.0, 0.1, 0.2])
+    outs = ['s' if rng.chance(skip_p) else rng.randint(-3, 6) for _ in range(380)]
+    return dict(kind='hist', names=names, vals=vals, repmax=repmax, keep=keep, ops=ops, outs=outs, file=False,
+                look=[])
+
+
+def gen_rcase(rng, rclass):
+    """R1 / R2 / R5 / R6: the same LOGICAL scenario handed over in another element type, memory layout /
+    shape, at the boundary values, or scaled; the model line (base integers) does not change"""
+    kindsel = rng.below(3)
+    c = gen_hist(rng) if kindsel == 0 else gen_case(rng) if kindsel == 1 else None
+    if c is None:
+        names, vals = gen_grid(rng, dup_p=0.0)
+        c = dict(kind='grid', names=names, vals=vals, look=gen_looks(rng, names, vals, rng.randint(1, 4)))
+    # duplicate-free, non-negative base values (narrow unsigned types must be able to hold them):
+    # every value of the scenario is shifted by 3, repeated values are replaced by fresh ones
+    def shift_list(vs):
+        out = []
+        for j, v in enumerate(vs):
+            v = v + 3
+            if v in out:
+                v = 40 + j
+            out.append(v)
+        return out
+
+    def shift_pairs(txt):
+        return '+'.join('%s:%d' % (t.split(':')[0], int(t.split(':')[1]) + 3) for t in txt.split('+') if t)
+
+    for nm in c['names']:
+        c['vals'][nm] = shift_list(c['vals'][nm])
+    if c['kind'] == 'hist':
+        ops = []
+        for op in c['ops']:
+            if op.startswith('padd:'):
+                t = op.split(':')
+                op = 'padd:%s:%s' % (t[1], '.'.join(str(x) for x in shift_list([int(x) for x in t[2].split('.') if x])))
+            elif op.startswith(('q:', 'hq:')):
+                head, body = op.split(':', 1)
+                op = head + ':' + shift_pairs(body)
+            ops.append(op)
+        c['ops'] = ops
+    else:
+        c['look'] = [[(k2, v2 + 3) for k2, v2 in fx] for fx in c['look']]
+    mat = {}
+    if rclass == 'R1':
+        pool = R1_KINDS
+        mat['params'] = {nm: rng.choice(pool) for nm in c['names']}
+        mat['new'] = [rng.choice(pool) for _ in range(3)]
+        mat['fixed'] = rng.choice(['same', 'pyint', 'pyfloat', 'np.float64', 'np.int64', 'np.int16', 'np.uint8',
+                                   'np.float32', '0d'])
+        mat['outs'] = rng.choice(['int', 'float', 'np.int8', 'np.int16', 'np.int32', 'np.int64', 'np.float16',
+                                  'np.float32', 'np.float64'])
+        mat['repmax'] = rng.choice(['int', 'np.int64', 'np.int16', 'np.uint8'])
+        mat['index'] = rng.choice(['int', 'str', 'np.int64'])
+    elif rclass == 'R2':
+        mat['params'] = {nm: rng.choice(R2_KINDS) for nm in c['names']}
+        mat['new'] = [rng.choice(R2_KINDS) for _ in range(3)]
+        mat['fixed'] = rng.choice(['same', '0d', 'pyint'])
+        if c['kind'] == 'hist' and rng.chance(0.3):
+            c['zerod'] = True          # scalars handed over as 0-d arrays (must be refused as unpacked parameters)
+    elif rclass == 'R5':
+        # boundary values: 0 / 0.0 / None among the values, single-element lists, rep_max 1, first / last index
+        for nm in c['names']:
+            if c['vals'][nm] and rng.chance(0.7):
+                c['vals'][nm][rng.below(len(c['vals'][nm]))] = 0 if 0 not in c['vals'][nm] else c['vals'][nm][0]
+                c['vals'][nm] = list(dict.fromkeys(c['vals'][nm]))
+            if rng.chance(0.25):
+                c['vals'][nm] = c['vals'][nm][:1]
+        # (None stands for the smallest value of ITS container: only where the containers are never replaced)
+        r5k = ['list', 'floatlist', 'tuple'] + ([] if c['kind'] == 'hist' else ['none', 'none'])
+        mat['params'] = {nm: rng.choice(r5k) for nm in c['names']}
+        mat['new'] = ['list', 'floatlist']
+        mat['fixed'] = rng.choice(['same', 'pyfloat', 'pyint'])
+        mat['outs'] = rng.choice(['int', 'float'])
+        if c['kind'] != 'grid':
+            c['repmax'] = rng.choice([1, 1, 2])
+            c['keep'] = [rng.choice(['always', 'sumlt:0', 'replt:0', 'replt:1', 'skiplt:0', 'skiplt:1'])]
+            c['outs'] = [o if o == 's' else rng.choice([0, 0, 1, o]) for o in c['outs']]
+        if c['kind'] == 'sim':
+            nvar = 1
+            for nm in c['names']:
+                nvar *= len(c['vals'][nm])
+            c['ops'] = [o if not o.startswith('single') else 'single:%d' % rng.choice([0, max(nvar - 1, 0), nvar, -1])
+                        for o in c['ops']]
+            c['look'] = gen_looks(rng, c['names'], c['vals'], rng.randint(1, 3))
+            for fx in c['look']:            # first / last element of the value lists
+                for j, (k2, v2) in enumerate(fx):
+                    if k2 in c['vals'] and c['vals'][k2] and v2 != 99:
+                        fx[j] = (k2, rng.choice([c['vals'][k2][0], c['vals'][k2][-1]]))
+    elif rclass == 'R6':
+        f = rng.choice(R6_SCALES)
+        arr = rng.chance(0.5)
+        kind = 'scale:%s%s' % (f, ':arr' if arr else '')
+        mat['params'] = {nm: kind for nm in c['names']}
+        mat['new'] = [kind]
+        mat['fixed'] = rng.choice(['same', 'pyfloat', 'np.float64'])
+        mat['outs'] = rng.choice(['p2:40', 'p2:-40', 'dec:1e12', 'dec:1e-12', 'dec:1e9', 'dec:1e-9', 'p2:100'])
+    if c['kind'] == 'grid':
+        mat.pop('outs', None)
+        mat.pop('repmax', None)
+        mat.pop('index', None)
+    if c['kind'] != 'grid' and c['kind'] != 'hist':
+        # look-ups by value need scalar elements
+        pass
+    c['mat'] = mat
+    c['rclass'] = rclass
+    # look-ups by value only on parameters whose elements are scalars
+    bad = set(nm for nm, kd in mat.get('params', {}).items() if kd in NOT_LOOKABLE)
+    if rclass == 'R2':
+        if c['kind'] == 'hist':
+            newbad = any(kd in NOT_LOOKABLE for kd in mat['new'])
+            ops = []
+            for op in c['ops']:
+                if op.startswith(('q:', 'hq:')):
+                    head, body = op.split(':', 1)
+                    keep_pairs = [t for t in body.split('+') if t and t.split(':')[0] not in bad
+                                  and not (newbad and t.split(':')[0] in NAME_POOL and t.split(':')[0] not in
+                                           mat['params'])]
+                    if newbad:
+                        keep_pairs = [t for t in keep_pairs if t.split(':')[0] == FIXED_EXTRA]
+                    op = head + ':' + '+'.join(keep_pairs)
+                ops.append(op)
+            c['ops'] = ops
+        else:
+            c['look'] = [[(k2, v2) for k2, v2 in fx if k2 not in bad] or [(FIXED_EXTRA, FIXED_EXTRA_VALUE)]
+                         for fx in c['look']]
+    return c
+
+
 def run_grid_impl(case):
-    p = make_params(case)
+    np = _np()
+    mat = Mat(case)
+    p = make_params(case, mat)
     names = sorted(case['names'])
     lst = p.get_unpacked_params_list()
-    combos = [[c[n] for n in names] for c in lst]
+    combos = [[mat.canon(n, c[n]) for n in names] for c in lst]
     idxs = [c.unpack_index for c in lst]
     packs = []
     obs = {'combos': combos, 'idx': idxs, 'n': p.get_num_unpacked_variations(), 'pack': []}
+    before = (snap(dict(p.parameters)), sorted(p._unpacked_parameters_set))
+    returned = []
     for fx in case['look']:
         try:
-            v = p.get_pack_indexes(dict(fx))
+            v = p.get_pack_indexes(mat.fixed(fx))
             packs.append(','.join(str(int(x)) for x in v))
             obs['pack'].append(('ok', [int(x) for x in v]))
+            returned.append(('get_pack_indexes%r' % (fx,), v, snap(v)))
+            if any(isinstance(o, np.ndarray) and np.shares_memory(v, o) for _, o, _ in mat.inputs):
+                obs.setdefault('aliases_input', []).append(fx)
         except BaseException as e:
             packs.append('error:' + type(e).__name__)
             obs['pack'].append(('error', type(e).__name__))
+    # R3/R4: look-ups (accepted or rejected) change nothing; inputs and earlier outputs stay as they were
+    obs['state_changed'] = before != (snap(dict(p.parameters)), sorted(p._unpacked_parameters_set))
+    obs['inputs_mutated'] = [w for w, o, sn in mat.inputs if snap(o) != sn]
+    obs['returned_changed'] = [w for w, o, sn in returned if snap(o) != sn]
+    # children of get_unpacked_params_list are independent of the parent (deep copies)
+    if lst and case['names']:
+        ch = lst[0]
+        obs['child_shares_dict'] = ch.parameters is p.parameters
     s = 'order=%s n=%d nc=%d combos=%s pack=%s' % (
         ','.join(p.unpacked_parameters), obs['n'], len(lst),
         '|'.join('.'.join(str(v) for v in c) for c in combos), '/'.join(packs))
@@ -634,7 +1370,7 @@ def lookup_class(case, dup):
     return 'lookup:duplicate-values' if dup else 'lookup:wrong-combinations'
 
 
-def oracle_sim(case, obs):
+def oracle_sim(case, obs, cfgs=None):
     """The property, checked from first principles on the raw event log of one scenario
     (calls received by `_run_simulation`, inputs and answers of `_keep_going`, stored
     results, runned_reps, partial files, lookups). Returns [(call, class, detail)].
@@ -645,40 +1381,60 @@ def oracle_sim(case, obs):
     variation may only end with rep == rep_max or after `_keep_going` returned False on the
     final results; a skip changes neither the merged results nor the count."""
     out = []
-    names, dims, n, combo = grid_facts(case)
-    repmax = case['repmax']
     carry = {}          # position -> (sum, tok, rep) saved in a partial file
     final_stats = None  # stats of the last completed all-variations simulate
     call = 'SimulationRunner.simulate'
-    for op, ob in zip(case['ops'], obs['ops']):
+    tag = [None]
+
+    def emit(c, cls, detail):
+        # failure classes are computed from the input: robustness class / attribute history of the op
+        cls = tag_class(case, cls)
+        out.append((c, '%s:%s' % (tag[0], cls) if tag[0] else cls, detail))
+
+    for k, (op, ob) in enumerate(zip(case['ops'] if cfgs is None else [c['op'] for c in cfgs], obs['ops'])):
         final_stats = None
+        cfg = cfgs[k] if cfgs is not None else {}
+        pc = dict(case, names=cfg['names'], vals=cfg['vals']) if cfg else case
+        names, dims, n, combo = grid_facts(pc)
+        repmax = cfg.get('repmax', case['repmax'])
+        file = cfg.get('file', case.get('file', False))
+        delete = cfg.get('delete', False)
+        tag[0] = cfg.get('tag')
+        # R4 / R3 facts recorded by the adapter for this call
+        if ob.get('rejected_changed'):
+            emit(call, 'R4:rejected-call-changed-state', 'simulate(%s) raised %s and changed %r'
+                 % (op, ob['status'], ob['rejected_changed']))
+            return out
+        if ob.get('inputs_mutated'):
+            emit(call, 'R3:input-mutated', 'modified by the call: %r' % ob['inputs_mutated'][:3])
+            return out
         if op == 'all':
             positions = list(range(n))
         else:
             i = int(op.split(':')[1])
             positions = [i] if 0 <= i < n else []
-            if not case['file']:
+            if not file:
                 # documented: a results file name is required for a single variation
                 if ob['status'] != 'RuntimeError' or ob['calls']:
-                    out.append((call, 'single-without-filename', 'status=%s' % ob['status']))
+                    emit(call, 'single-without-filename', 'status=%s' % ob['status'])
                 continue
         calls = ob['calls']
         if ob['status'] == 'SkipThisOne':
             first = bool(calls) and calls[-1][2] == 's' and all(
                 c[2] == 's' for c in calls if c[0] == calls[-1][0])
-            fresh = not (case['file'] and max(calls[-1][0], 0) in carry) if calls else True
+            fresh = not (file and max(calls[-1][0], 0) in carry) if calls else True
             cls = 'skip-in-first-repetition' if (first and fresh) else 'skip-propagated'
-            out.append((call, cls, 'SkipThisOne left simulate() at call %d of the op' % len(calls)))
+            emit(call, cls, 'SkipThisOne left simulate() at call %d of the op' % len(calls))
             return out
         if ob['status'] not in ('ok', 'Exhausted'):
-            out.append((call, 'exception:' + ob['status'], 'simulate() raised'))
+            emit(call, 'exception:' + ob['status'], 'simulate() raised')
             return out
         # group the events by variation, in order of appearance
         groups = []
         for ev in ob['events']:
             ui = ev[1]
             if (ui < 0) != (not names):
-                out.append((call, 'wrong-variation-order', 'unpack_index %d' % ui))
+                emit(call, 'wrong-variation-order', 'unpack_index %d' % ui)
                 return out
             if not groups or groups[-1][0] != max(ui, 0):
                 groups.append((max(ui, 0), []))
@@ -687,7 +1443,7 @@ def oracle_sim(case, obs):
         done = []
         aborted = False
         for pos in positions:
-            st = carry.get(pos) if case['file'] else None
+            st = carry.get(pos) if file else None
             s, tok, rep = st if st else (0, 0, 0)
             have = st is not None
             if gi < len(groups) and groups[gi][0] == pos:
@@ -700,39 +1456,39 @@ def oracle_sim(case, obs):
                 break
             else:
                 got = groups[gi][0] if gi < len(groups) else None
-                out.append((call, 'wrong-variation-order',
-                            'expected events of variation %d, found those of %r' % (pos, got)))
+                emit(call, 'wrong-variation-order',
+                            'expected events of variation %d, found those of %r' % (pos, got))
                 return out
             permitted = not have
             last_keep = None
             for ev in evs:
                 if ev[0] == 'exhausted':
                     if not permitted:
-                        out.append((call, 'extra-repetitions',
+                        emit(call, 'extra-repetitions',
                                     'variation %d: repetition requested at rep=%d (rep_max=%d) without the stop '
-                                    'rule and the limit allowing it' % (pos, rep, repmax)))
+                                    'rule and the limit allowing it' % (pos, rep, repmax))
                         return out
                     aborted = True
                     break
                 if ev[0] == 'keep':
                     _, ui, s_in, tok_in, r_in, res = ev
                     if not have or s_in != s or tok_in != tok or r_in != rep:
-                        out.append((call, 'keep-going-inputs',
+                        emit(call, 'keep-going-inputs',
                                     'variation %d: _keep_going saw sum=%r tok=%r rep=%r, merged results '
-                                    'are sum=%r tok=%r rep=%r' % (pos, s_in, tok_in, r_in, s, tok, rep)))
+                                    'are sum=%r tok=%r rep=%r' % (pos, s_in, tok_in, r_in, s, tok, rep))
                         return out
                     permitted = bool(res) and rep < repmax
                     last_keep = bool(res)
                 else:
                     _, ui, c, o, pv = ev
                     if pv != combo(pos):
-                        out.append(('SimulationParameters.get_unpacked_params_list', 'wrong-parameters',
-                                    'variation %d got %r expected %r' % (pos, pv, combo(pos))))
+                        emit('SimulationParameters.get_unpacked_params_list', 'wrong-parameters',
+                                    'variation %d got %r expected %r' % (pos, pv, combo(pos)))
                         return out
                     if not permitted:
-                        out.append((call, 'extra-repetitions',
+                        emit(call, 'extra-repetitions',
                                     'variation %d: repetition run at rep=%d (rep_max=%d) without the stop rule '
-                                    'and the limit allowing it' % (pos, rep, repmax)))
+                                    'and the limit allowing it' % (pos, rep, repmax))
                         return out
                     if o == 's':
                         permitted = not have
@@ -746,54 +1502,56 @@ def oracle_sim(case, obs):
             if aborted:
                 break
             if not have or (rep < repmax and last_keep is not False):
-                out.append((call, 'too-few-repetitions',
+                emit(call, 'too-few-repetitions',
                             'variation %d ended at rep %d < rep_max %d although _keep_going had not '
-                            'returned False on the final results' % (pos, rep, repmax)))
+                            'returned False on the final results' % (pos, rep, repmax))
                 return out
             done.append((pos, s, tok, rep))
         if aborted:
             # the variations completed before the script ran out have written their partial files
-            if case['file']:
+            if file:
                 for pos, s, tok, rep in done:
                     carry[pos] = (s, tok, rep)
             continue
         if gi != len(groups):
-            out.append((call, 'wrong-variation-order', 'events of variation %d after the last expected one'
-                        % groups[gi][0]))
+            emit(call, 'wrong-variation-order', 'events of variation %d after the last expected one'
+                        % groups[gi][0])
             return out
         if ob['status'] == 'Exhausted':
-            out.append((call, 'extra-repetitions', 'the script ran out after every variation was complete'))
+            emit(call, 'extra-repetitions', 'the script ran out after every variation was complete')
             return out
         # recorded counts and stored results
         if op == 'all':
             if ob['reps'] != [d[3] for d in done]:
-                out.append((call, 'runned-reps-mismatch', 'runned_reps=%r executed=%r'
-                            % (ob['reps'], [d[3] for d in done])))
+                emit(call, 'runned-reps-mismatch', 'runned_reps=%r executed=%r'
+                            % (ob['reps'], [d[3] for d in done]))
             if len(ob['stats']) != len(done):
-                out.append((call, 'stored-result-not-merge', '%d stored results for %d variations'
-                            % (len(ob['stats']), len(done))))
+                emit(call, 'stored-result-not-merge', '%d stored results for %d variations'
+                            % (len(ob['stats']), len(done)))
             else:
                 for (pos, s, tok, rep), (st, sk) in zip(done, ob['stats']):
                     f = st.split('/')
                     if f[0] != str(s) or f[7] != str(tok):
-                        out.append((call, 'stored-result-not-merge',
+                        emit(call, 'stored-result-not-merge',
                                     'variation %d: stored sum=%s tok=%s, merged sum=%d tok=%d'
-                                    % (pos, f[0], f[7], s, tok)))
+                                    % (pos, f[0], f[7], s, tok))
                         break
                 final_stats = ob['stats']
         else:
             if done:
                 pos, s, tok, rep = done[0]
                 if ob['reps'] != rep:
-                    out.append((call, 'runned-reps-mismatch', 'runned_reps=%r executed=%r' % (ob['reps'], rep)))
+                    emit(call, 'runned-reps-mismatch', 'runned_reps=%r executed=%r' % (ob['reps'], rep))
                 key = pos if names else -1
                 sv = ob['store'].get(key)
                 if sv is None or sv[0] != rep or sv[2].split('/')[0] != str(s) or sv[2].split('/')[7] != str(tok):
-                    out.append((call, 'stored-result-not-merge', 'variation %d: partial file %r, merged '
-                                'sum=%d tok=%d rep=%d' % (pos, sv, s, tok, rep)))
-        if case['file']:
+                    emit(call, 'stored-result-not-merge', 'variation %d: partial file %r, merged '
+                                'sum=%d tok=%d rep=%d' % (pos, sv, s, tok, rep))
+        if file:
             for pos, s, tok, rep in done:
                 carry[pos] = (s, tok, rep)
+            if op == 'all' and delete:
+                carry.clear()     # delete_partial_results_bool: the partial files are removed at the end
         if out:
             return out
     # lookups by fixed parameter values
@@ -806,13 +1564,37 @@ def oracle_sim(case, obs):
                 continue          # documented rejection of a value that is not in the grid
             exp = [toks[i] for i in pos]
             if kind != 'ok' or val != exp:
-                out.append((call, lookup_class(case, dup), 'fixed=%r returned %r, matching combinations %r -> %r'
-                            % (fx, val, pos, exp)))
+                emit(call, lookup_class(case, dup), 'fixed=%r returned %r, matching combinations %r -> %r'
+                            % (fx, val, pos, exp))
+    tag[0] = None
+    if obs.get('inputs_mutated'):
+        emit(call, 'R3:input-mutated', 'modified by a look-up: %r' % obs['inputs_mutated'][:3])
+    if obs.get('returned_changed'):
+        emit(call, 'R3:returned-object-changed', '%r' % obs['returned_changed'][:3])
+    if obs.get('lookup_changed_state'):
+        emit(call, 'R3:lookup-changed-state', '%r' % obs['lookup_changed_state'][:2])
     return out
 
 
 def oracle_grid(case, obs):
+    out = _oracle_grid(case, obs)
+    return [(c, tag_class(case, cls), d) for c, cls, d in out]
+
+
+def _oracle_grid(case, obs):
     out = []
+    if obs.get('state_changed'):
+        out.append(('SimulationParameters.get_pack_indexes', 'R3:lookup-changed-state', 'parameters or unpacked set'))
+    if obs.get('inputs_mutated'):
+        out.append(('SimulationParameters.get_pack_indexes', 'R3:input-mutated', '%r' % obs['inputs_mutated'][:3]))
+    if obs.get('returned_changed'):
+        out.append(('SimulationParameters.get_pack_indexes', 'R3:returned-object-changed',
+                    '%r' % obs['returned_changed'][:3]))
+    if obs.get('aliases_input'):
+        out.append(('SimulationParameters.get_pack_indexes', 'R3:output-aliases-input', '%r' % obs['aliases_input'][:2]))
+    if obs.get('child_shares_dict'):
+        out.append(('SimulationParameters.get_unpacked_params_list', 'R3:output-aliases-input',
+                    'a variation shares the parameters dictionary of its parent'))
     names, dims, n, combo = grid_facts(case)
     call = 'SimulationParameters.get_unpacked_params_list'
     if obs['n'] != n or len(obs['combos']) != n:
@@ -1027,6 +1809,32 @@ def run_cases(ctx, cases, name='simulate'):
                     if ob['kind'] == 'p' and ob['status'] != 'ok':
                         ctx.branch('hist:rejected-' + ob['status'])
                 ctx.sample({'line': hist_line(c)[:400], 'impl': impl[:400], 'model': m[:400]}, limit=8)
+                seen_rmax = False
+                sims = 0
+                for k, ob in zip(kinds, obs['ops']):
+                    if k in ('rmax', 'file', 'del', 'single', 'hq'):
+                        ctx.branch('hist:' + k)
+                    if k == 'rmax' and sims:
+                        seen_rmax = True
+                    if k in ('all', 'single'):
+                        if seen_rmax and ob.get('status') == 'ok' and ob.get('calls'):
+                            ctx.branch('R7:simulate-after-rep_max-change')
+                            seen_rmax = False
+                        sims += 1
+                        if ob.get('twin') is not None:
+                            ctx.branch('R7:fresh-runner-twin')
+                        d = ob['cfg']['content'][0]
+                        if 'rep_max' in d and d['rep_max'] != ob['cfg']['repmax'] and ob.get('calls'):
+                            ctx.branch('R7:rep_max-entry-in-params-differs')
+                        if ob['cfg']['file'] and ob['cfg']['delete']:
+                            ctx.branch('R7:delete-partial-results')
+                    if 'rejected_changed' in ob:
+                        ctx.branch('R4:rejected-call-checked')
+                    if k == 'q':
+                        ctx.branch('R7:lookup-vs-fresh-object')
+                if obs.get('held'):
+                    ctx.branch('R3:held-results-requeried')
+                ctx.branch('R3:snapshots-compared')
             else:
                 impl, obs = run_impl(c, ctx.scratch)
                 key = classify(c, obs)
@@ -1048,6 +1856,14 @@ def run_cases(ctx, cases, name='simulate'):
                 for kind, _ in obs['look']:
                     ctx.branch('lookup:' + kind)
                 ctx.sample({'line': case_line(c)[:300], 'impl': impl[:300], 'model': m[:300]}, limit=5)
+                if any('rejected_changed' in ob for ob in obs['ops']):
+                    ctx.branch('R4:rejected-call-checked')
+                ctx.branch('R3:snapshots-compared')
+            if c.get('rclass'):
+                ctx.branch(c['rclass'])
+                ctx.branch('%s:%s' % (c['rclass'], c['kind']))
+                for bit in mat_desc(c).split(','):
+                    ctx.branch('%s:%s' % (c['rclass'], bit.split('=')[0] if '=' in bit else bit.split(':')[0]))
             seen = set()
             for call, cls, detail in viols:
                 if (call, cls) not in seen:
@@ -1149,13 +1965,28 @@ def check(ctx):
                              'resume-from-partial-file', 'repeated-simulate-no-file', 'single-variation',
                              'lookup:ok', 'grid:pack-error', 'status:Exhausted', 'status:RuntimeError',
                              'hist:lookup-right-after-mutation', 'hist:mutate-simulate-lookup', 'hist:padd',
-                             'hist:prem', 'hist:punp', 'hist:pscalar']
+                             'hist:prem', 'hist:punp', 'hist:pscalar', 'hist:rmax', 'hist:file', 'hist:del',
+                             'hist:single', 'hist:hq',
+                             'R1', 'R1:sim', 'R1:grid', 'R1:hist', 'R1:fixed', 'R1:outs', 'R1:repmax', 'R1:index',
+                             'R1:int8', 'R1:uint8', 'R1:int16', 'R1:uint16', 'R1:int32', 'R1:int64', 'R1:float16',
+                             'R1:float32', 'R1:complex64', 'R1:tuple', 'R1:npscalars',
+                             'R2', 'R2:sim', 'R2:grid', 'R2:hist', 'R2:rev', 'R2:strided', 'R2:col', 'R2:fcol',
+                             'R2:rows2', 'R2:rows2T', 'R2:bcast2', 'R2:rows3d', 'R2:readonly',
+                             'R3:snapshots-compared', 'R3:held-results-requeried', 'R4:rejected-call-checked',
+                             'R5', 'R5:none', 'R5:floatlist', 'R6', 'R6:scale', 'R6:outs',
+                             'R7:fresh-runner-twin', 'R7:simulate-after-rep_max-change',
+                             'R7:rep_max-entry-in-params-differs', 'R7:delete-partial-results',
+                             'R7:lookup-vs-fresh-object']
     cases = corpus_cases()
     rng = ctx.rng.fork('sim')
     cases += [gen_case(rng) for _ in range(1500 if quick else 15000)]
     cases += grid_cases(ctx.rng.fork('grid'), 4000 if quick else 60000)
     hrng = ctx.rng.fork('hist')
-    cases += [gen_hist(hrng) for _ in range(600 if quick else 8000)]
+    cases += [gen_hist(hrng) for _ in range(500 if quick else 5000)]
+    cases += [gen_hist2(hrng) for _ in range(400 if quick else 4000)]
+    rrng = ctx.rng.fork('robust')
+    for rc in ('R1', 'R2', 'R5', 'R6'):
+        cases += [gen_rcase(rrng, rc) for _ in range(250 if quick else 2000)]
     if quick:
         cases += exhaustive_cases(4, (1, 2))
     else:
@@ -1177,7 +2008,8 @@ def search(ctx):
     """deeper failing-input search on the implementation (oracles only; no model needed)"""
     rng = ctx.rng.fork('search')
     cases = corpus_cases() + [gen_case(rng) for _ in range(1500)] + grid_cases(rng, 3000) \
-        + [gen_hist(rng) for _ in range(1500)] + exhaustive_cases(5, (1, 2))
+        + [gen_hist(rng) for _ in range(1000)] + [gen_hist2(rng) for _ in range(1000)] \
+        + [gen_rcase(rng, rc) for rc in ('R1', 'R2', 'R5', 'R6') for _ in range(300)] + exhaustive_cases(5, (1, 2))
     for c in cases:
         if c['kind'] == 'grid':
             _, obs = run_grid_impl(c)
